@@ -13,19 +13,34 @@ RULE = ("replies are produced by the Spec's reference encoders (specjudge c08enc
 ASSUMPTIONS = ["floats are compared through repr against the model's tenths", "remote ids are ASCII without NUL"]
 
 
-def _parse(kind, hexreply):
+def _parse(kind, hexreply, how="fresh"):
     from aioswitcher.api import messages as M
     raw = bytes.fromhex(hexreply) if hexreply != "-" else b""
     cls = {"state": M.SwitcherStateResponse, "thermo": M.SwitcherThermostatStateResponse, "shutter": M.SwitcherShutterStateResponse,
            "login": M.SwitcherLoginResponse}[kind]
     try:
-        return H.show_resp(cls(raw))
+        if how == "replace" and kind in _EARLIER:
+            # the response object of an EARLIER reply re-made for this one (dataclasses.replace with the new bytes): every decoded
+            # field is this reply's
+            import dataclasses
+            r = dataclasses.replace(_EARLIER[kind], unparsed_response=raw)
+        elif how == "copies":
+            import copy
+            import pickle
+            r = pickle.loads(pickle.dumps(copy.deepcopy(copy.copy(cls(raw)))))
+        else:
+            r = cls(raw)
+        _EARLIER[kind] = r
+        return H.show_resp(r)
     except Exception as e:  # noqa
         return "raise " + C.exc_name(e)
 
 
+_EARLIER = {}
+
+
 def _impl(a):
-    return _parse(a["kind"], a["reply"])
+    return _parse(a["kind"], a["reply"], a.get("how", "fresh"))
 
 
 def _model(a):
@@ -153,6 +168,10 @@ def shipped():
 def streams(ctx):
     rng = ctx.rng
     ctx.run_cases(RAW, "shipped-replies-reencoded", shipped(), exhaustive=True)
+    # response objects re-made from an earlier one (dataclasses.replace with the new reply), copied, deep-copied and pickled
+    for kind in ("state", "thermo", "shutter", "login"):
+        items = [dict(a, how=("replace" if i % 3 else "copies")) for i, a in enumerate(_encode_all(rng, ctx.n(200, 4000), kind))]
+        ctx.run_cases(ENC, f"{kind}-responses-re-made-from-earlier-ones-or-copied", items, exhaustive=False, sample_every=97)
     for kind in ("state", "thermo", "shutter", "login"):
         ctx.run_cases(ENC, f"encoded-{kind}", _encode_all(rng, ctx.n(1000, 20000), kind), exhaustive=False, sample_every=499)
     # what a reply says does not depend on where the client's host is: the same streams on hosts in other zones
